@@ -849,7 +849,39 @@ def c18_17(ctx):
     return c17_10(ctx)
 
 
+def c18_18(ctx):
+    """a filter serialises to the Golomb-coded *ascending* sequence of its values whatever order it was built from (BIP158 codes the
+    differences of the sorted values): CompactFilter(key, values).serialize() is evaluated for values given ascending, descending and shuffled,
+    with serialize_gcs as a stand-in that records the list it is given"""
+    from sa.cells import Evaluator, Obj, Raised, Undecided
+    spec = "compactfilter:CompactFilter.serialize"
+    mod, fn = rl.get(ctx, spec)
+    vals = [5, 1200, 77, 999999, 31, 4096]
+    for label, order in (("ascending", sorted(vals)), ("descending", sorted(vals, reverse=True)), ("shuffled", list(vals))):
+        ctx.count("cells")
+        seen = {}
+
+        def opaque(name, args, kw):
+            if name == "serialize_gcs":
+                seen["arg"] = list(args[0])
+                return b"GCS"
+            return NotImplemented
+        me = Obj("compactfilter", "CompactFilter", {})
+        try:
+            Evaluator(ctx.repo, opaque=opaque).call("compactfilter:CompactFilter.__init__", [bytes(16), list(order)], self_obj=me)
+            Evaluator(ctx.repo, opaque=opaque).call(spec, [], self_obj=me)
+        except Raised as x:
+            return [ctx.bad(spec, "serialising a filter built from %s values raises %s" % (label, x.name), fn, mod, key="sorted-serialise")]
+        except Undecided as u:
+            return [ctx.err(spec, "filter serialisation not evaluable: %s" % u, fn, mod)]
+        if seen.get("arg") != sorted(vals):
+            return [ctx.bad(spec, "a filter built from the values in %s order hands %s to the Golomb coder, not the ascending sequence: the deltas are wrong (negative or "
+                                  "shuffled), so the bytes are not the BIP158 filter and its hash / header chain differ" % (label, seen.get("arg")), fn, mod, key="sorted-serialise")]
+    return [ctx.ok(spec, "the Golomb coder receives the ascending sequence for every construction order", fn, mod, key="sorted-serialise")]
+
+
 OBLIGATIONS = [
+    ("C18.18", "CELLS order", c18_18),
     ("C18.17", "BITS (shared C17.10)", c18_17),
     ("C18.15", "VERDICT-SOURCE", c18_15),
     ("C18.16", "TOTALITY", c18_16),
